@@ -128,7 +128,7 @@ def jobs(pid, tier):
         return [seq('C05')]
     if pid == 'C13':
         if q:
-            return [seq('C13'), vrt('C13', [r'gen_.*'], bound=2, workers=2)]
+            return [seq('C13'), vrt('C13', [r'gen_.*'], bound=3, workers=4)]
         return [seq('C13'), vrt('C13', [r'gen_.*'], unbounded=True, workers=4)]
     if pid == 'C14':
         if q:
